@@ -89,7 +89,7 @@ CHECKS.update({
             "TLA+ spec AuxWire.tla + AuxWireJudge.tla: TLC-computed expected bytes vs Python and Java codecs"),
     "C15": ("model_checking",
             "TypeName.tla gives the grammar three ways (generative set, recursive descent, push-down recogniser); TLC "
-            "checks they agree on every string up to length 7 (9 thorough) over {a,b,<,>,','} and prints verdict and "
+            "checks they agree on every string up to length 7 (8 thorough) over {a,b,<,>,','} and prints verdict and "
             "tree for each, which _parse_type must reproduce (TypeNameError iff rejected); long/deep/unicode names and "
             "their mutations are parsed by the code and judged by TLC.",
             "TLA+ spec TypeName.tla: exhaustive string enumeration by TLC + TLC-judged recorded parses"),
